@@ -12,6 +12,7 @@ Step == /\ l <= Len(Trace)
                            \cup F("CoverageExact", CoverageExact(e))
                            \cup F("RangesExact", RangesExact(e))
                            \cup F("ScriptsExact", ScriptsExact(e))
+                           \cup F("CoverageHistoryFree", CoverageHistoryFree(e))
            IN /\ fails' = fails \cup {[line |-> l, pred |-> b] : b \in bad}
               /\ nontriv' = nontriv + (IF e.p = "ok" /\ Len(e.look) >= 2 THEN 1 ELSE 0)
         /\ l' = l + 1
